@@ -1,4 +1,6 @@
 import Proofs.KeysTotal
+import Proofs.KeysPem
+import Proofs.KeysInst
 /-!
 # C10 — decoders of external data fail only with their documented exceptions (key loaders)
 
@@ -12,8 +14,24 @@ each decoder (Props/C02), the ECDH byte / DER / PEM loaders (Props/C05).
 namespace C10
 open Keys KeysP
 
-/-- the documented exceptions of the key loaders -/
-def Documented (e : PyErr) : Prop := e = .unexpectedDER ∨ e = .malformedPoint ∨ e = .unknownCurve
+theorem table_p_odd : ∀ c ∈ Gen.curveTable, c.p % 2 = 1 := by decide +kernel
+
+/-- the documented exceptions of the key loaders: `KeysP.Documented e` is
+`e = .unexpectedDER ∨ e = .malformedPoint ∨ e = .unknownCurve` -/
+theorem documented_iff (e : PyErr) : Documented e ↔ (e = .unexpectedDER ∨ e = .malformedPoint ∨ e = .unknownCurve) :=
+  Iff.rfl
+
+/-- the hypotheses on the external functions, for every curve of the generated table: `square_root_mod_prime` returns a
+root or raises `SquareRootError` (C15); `d·G` has reduced coordinates for `1 ≤ d < n` (C07).  `base64.b64decode` can only
+fail with `binascii.Error` by its type (`Option`), which `unpem` maps to `UnexpectedDER` (F7). -/
+def ExtOK (E : Ext) : Prop :=
+  (∀ c ∈ Gen.curveTable, SqrtSpec E.sqrtModP c.p) ∧ (∀ c ∈ Gen.curveTable, PubSpec E c)
+
+theorem total_of_err {α : Type} (r : Res α) (h : ∀ e, r = .error e → Documented e) :
+    (∃ v, r = .ok v) ∨ (∃ e, r = .error e ∧ Documented e) := by
+  cases hr : r with
+  | ok v => exact Or.inl ⟨v, rfl⟩
+  | error e => exact Or.inr ⟨e, rfl, h e hr⟩
 
 /-- `VerifyingKey.from_string`: only `MalformedPointError`.  Hypothesis: `square_root_mod_prime` returns a root or
 raises `SquareRootError` (C15; for `p ≡ 1 mod 8`, i.e. P-224, this is C15's partial branch). -/
@@ -31,5 +49,63 @@ theorem sk_from_string_total (E : Ext) (c : Curve) (hpub : PubSpec E c) (bs : By
   cases h : SK.fromString E c bs with
   | ok k => exact Or.inl ⟨k, rfl⟩
   | error e => right; rw [sk_fromString_err E c hpub bs e h]
+
+/-- `VerifyingKey.from_der` -/
+theorem vk_from_der_total (E : Ext) (hE : ExtOK E) (bs : Bytes) :
+    (∃ k, VK.fromDer E bs = .ok k) ∨ (∃ e, VK.fromDer E bs = .error e ∧ Documented e) :=
+  total_of_err _ (vk_fromDer_err E hE.1 bs)
+
+/-- `VerifyingKey.from_pem` -/
+theorem vk_from_pem_total (E : Ext) (hE : ExtOK E) (bs : Bytes) :
+    (∃ k, VK.fromPem E bs = .ok k) ∨ (∃ e, VK.fromPem E bs = .error e ∧ Documented e) :=
+  total_of_err _ (vk_fromPem_err E hE.1 bs)
+
+/-- `SigningKey.from_der` (this is where F6 mattered: the `indexError` of the octet-string / constructed / bit-string
+readers is gone from the model because it is gone from the code, and C11 proves the readers' only error is
+`UnexpectedDER`) -/
+theorem sk_from_der_total (E : Ext) (hE : ExtOK E) (bs : Bytes) :
+    (∃ k, SK.fromDer E bs = .ok k) ∨ (∃ e, SK.fromDer E bs = .error e ∧ Documented e) :=
+  total_of_err _ (sk_fromDer_err E hE.2 bs)
+
+/-- `SigningKey.from_pem` (F7: no `binascii.Error`, no `ValueError` from a missing header) -/
+theorem sk_from_pem_total (E : Ext) (hE : ExtOK E) (bs : Bytes) :
+    (∃ k, SK.fromPem E bs = .ok k) ∨ (∃ e, SK.fromPem E bs = .error e ∧ Documented e) :=
+  total_of_err _ (sk_fromPem_err E hE.2 bs)
+
+/-- with `square_root_mod_prime` instantiated by its model (`NT.squareRootModPrime`, contract = `C15.sqrt_spec`), the
+public-key loaders need only the primality of the table's field primes (SEC 2 / FIPS / RFC 5639 fact) -/
+theorem vk_loaders_total_model (hprime : ∀ c ∈ Gen.curveTable, c.p.Prime) (bs : Bytes) :
+    (∀ e, VK.fromDer KeysWire.modelExt bs = .error e → Documented e) ∧
+    (∀ e, VK.fromPem KeysWire.modelExt bs = .error e → Documented e) ∧
+    (∀ c ∈ Gen.curveTable, ∀ v e, VK.fromString KeysWire.modelExt c bs v = .error e → e = .malformedPoint) := by
+  have hsq : ∀ c ∈ Gen.curveTable, SqrtSpec KeysWire.modelExt.sqrtModP c.p := by
+    intro c hc
+    have hodd := table_p_odd _ hc
+    exact sqrtSpec_modelExt c.p (hprime c hc) (by omega)
+  exact ⟨fun e h => vk_fromDer_err _ hsq bs e h, fun e h => vk_fromPem_err _ hsq bs e h,
+    fun c hc v e h => fromString_err _ c (hprime c hc).pos (hsq c hc) bs v e h⟩
+
+/-- in particular none of the internal exception classes escapes any of the six loaders -/
+theorem no_internal_exception (E : Ext) (hE : ExtOK E) (bs : Bytes) (e : PyErr)
+    (h : VK.fromDer E bs = .error e ∨ VK.fromPem E bs = .error e ∨ SK.fromDer E bs = .error e ∨ SK.fromPem E bs = .error e) :
+    e ≠ .indexError ∧ e ≠ .typeError ∧ e ≠ .valueError ∧ e ≠ .binasciiError ∧ e ≠ .assertionError ∧ e ≠ .other
+      ∧ e ≠ .runtimeError ∧ e ≠ .squareRoot ∧ e ≠ .jacobiError := by
+  have hd : Documented e := by
+    rcases h with h | h | h | h
+    · exact vk_fromDer_err E hE.1 bs e h
+    · exact vk_fromPem_err E hE.1 bs e h
+    · exact sk_fromDer_err E hE.2 bs e h
+    · exact sk_fromPem_err E hE.2 bs e h
+  rcases hd with h | h | h <;> subst h <;> decide
+
+/-- non-vacuity: the F6 witness `30 06 02 01 01 04 20 01` (declared octet-string length beyond the buffer) is
+`UnexpectedDER` in the model (it was `IndexError` before a7b3e40), and a PEM without header is `UnexpectedDER` -/
+def ext0 : Ext :=
+  { subgroupOk := fun _ _ _ => true, sqrtModP := fun _ _ => .error .squareRoot,
+    pubPoint := fun _ _ => none, b64decode := b64decodeCPython }
+
+example : SK.fromDer ext0 [0x30, 0x06, 0x02, 0x01, 0x01, 0x04, 0x20, 0x01] = .error .unexpectedDER := by decide +kernel
+
+example : SK.fromPem ext0 [110, 111, 32, 104, 101, 97, 100, 101, 114] = .error .unexpectedDER := by decide +kernel
 
 end C10
